@@ -105,6 +105,13 @@ fn run(defs: &[Def]) -> Result<Outcome, V> {
     if n_ex >= 2 {
         out.cells.push("two_or_more_exchanges");
     }
+    {
+        let mut sorted = defs.to_vec();
+        sorted.sort();
+        if sorted.windows(2).any(|w| w[0] == w[1]) {
+            out.cells.push("duplicate_definition_in_input");
+        }
+    }
 
     for (pos, ex) in ins.exchanges().iter().enumerate() {
         let (e_idx, e_id) = (ex.key, ex.value);
@@ -423,8 +430,91 @@ fn gen_defs(rng: &mut Rng) -> Vec<Def> {
     if defs.is_empty() {
         defs.push(Def { exchange: exchanges[0], base: "btc".into(), quote: "usdt".into(), perp_settle: None });
     }
+    // the same instrument defined more than once (e.g. the instrument lists of two strategies concatenated):
+    // the collection keeps ONE entry per distinct instrument, wherever the repeats sit in the input
+    if rng.chance(1, 3) {
+        for _ in 0..rng.range_u(1, 3) {
+            let d = defs[rng.usize_below(defs.len())].clone();
+            defs.push(d);
+        }
+    }
     rng.shuffle(&mut defs);
     defs
+}
+
+// ------------------------------------------------------------------------------------------------
+// builder stage: links assembled by the library's own ExecutionBuilder (see vharness::builder_stage)
+
+use vharness::builder_stage::{self, BuilderCase, Claim};
+
+fn judge_builder(case: &BuilderCase) -> Result<(u64, u64, Vec<&'static str>), V> {
+    let obs = builder_stage::run_builder_case(case).map_err(|e| if e.starts_with("PANIC") { ("panic_in_engine_process", e) } else { ("HARNESS_builder_stage", e) })?;
+    let (mut events, mut checks, mut cells) = (0u64, 0u64, vec![]);
+    for o in &obs.reqs {
+        events += 1 + o.deliveries.len() as u64 + o.responses.len() as u64;
+        checks += 3;
+        let what = format!("{} {:?} for instrument #{} = {} on {:?} (exchange index {})", if o.req.open { "open" } else { "cancel" }, o.req.cid, o.instrument_index, o.name_exchange, o.exchange, o.exchange_index);
+        // wherever a request arrives, it must be the client of the instrument's own exchange, addressed by
+        // that exchange's id and that instrument's exchange name
+        for (x, call) in &o.deliveries {
+            if *x != o.slot || call.exchange != o.exchange || call.instrument != o.name_exchange {
+                return Err(("exchange_client_received_request_for_wrong_instrument", format!("{what}: reached the client of {:?} as ({:?}, {})", builder_stage::LIVE[*x], call.exchange, call.instrument)));
+            }
+        }
+        if !o.linked {
+            if !o.deliveries.is_empty() {
+                return Err(("exchange_client_received_request_for_wrong_instrument", format!("{what}: the exchange has no execution link, yet the request was delivered: {:?}", o.deliveries)));
+            }
+            cells.push("builder:exchange_without_link_routes_nowhere");
+            continue;
+        }
+        if o.claim != Claim::Sent || o.deliveries.len() != 1 {
+            return Err(("order_request_did_not_reach_its_exchange_client", format!("{what}: the exchange has an execution link (built by ExecutionBuilder, {} of {} exchanges linked) but the engine reports {:?} and the client saw {} calls", obs.n_linked, obs.n_exchanges, o.claim, o.deliveries.len())));
+        }
+        cells.push("builder:request_reached_own_client");
+        if obs.gap_before_linked {
+            cells.push("builder:linked_exchange_after_an_unlinked_one");
+        }
+        // the client's answer comes back indexed onto the same exchange and instrument ...
+        if o.responses.len() != 1 || o.responses[0].0 != o.exchange_index || o.responses[0].1 != o.instrument_index {
+            return Err(("execution_response_attributed_to_wrong_instrument", format!("{what}: answers came back as (exchange index, instrument index, is_order) {:?}", o.responses)));
+        }
+        // ... and is applied by the engine to that instrument only
+        let cancelled_too = o.req.open && obs.reqs.iter().any(|c| !c.req.open && c.req.cid == o.req.cid);
+        if o.req.open && !cancelled_too && o.tracked_on_after_response != vec![o.instrument_index] {
+            return Err(("account_event_applied_to_wrong_instrument", format!("{what}: after the exchange's answer the order is tracked on instruments {:?}", o.tracked_on_after_response)));
+        }
+    }
+    Ok((events, checks, cells))
+}
+
+fn execute_builder(case: &BuilderCase, report: &mut Report) {
+    let h = fnv1a(format!("{case:?}").as_bytes());
+    match judge_builder(case) {
+        Ok((events, checks, cells)) => {
+            report.events_observed += events;
+            report.oracle_checks += checks;
+            let nontrivial = cells.contains(&"builder:request_reached_own_client") && case.instruments.iter().map(|i| i.0).collect::<std::collections::BTreeSet<_>>().len() >= 2;
+            for c in &cells {
+                report.cover(c);
+            }
+            report.case(h, nontrivial);
+        }
+        Err((sig, detail)) if sig.starts_with("HARNESS_") => report.harness_errors.push(format!("{sig}: {detail}")),
+        Err((sig, detail)) => {
+            report.case(h, true);
+            let small = shrink(&case.requests, |cand| {
+                let c = BuilderCase { requests: cand.to_vec(), ..case.clone() };
+                matches!(judge_builder(&c), Err((s, _)) if s == sig)
+            });
+            let c = BuilderCase { requests: small, ..case.clone() };
+            let detail = match judge_builder(&c) {
+                Err((_, dd)) => dd,
+                Ok(_) => detail,
+            };
+            report.violation(sig, detail, json!({"builder_case": c}));
+        }
+    }
 }
 
 fn execute(defs: &[Def], report: &mut Report) {
@@ -459,9 +549,14 @@ fn main() {
     let args = Args::parse();
     if let Some(path) = &args.replay {
         let v: Value = serde_json::from_str(&std::fs::read_to_string(path).expect("read replay")).expect("json");
-        let defs: Vec<Def> = serde_json::from_value(v["history"]["defs"].clone()).expect("defs");
         let mut report = Report::new("C04");
-        execute(&defs, &mut report);
+        if !v["history"]["builder_case"].is_null() {
+            let case: BuilderCase = serde_json::from_value(v["history"]["builder_case"].clone()).expect("builder case");
+            execute_builder(&case, &mut report);
+        } else {
+            let defs: Vec<Def> = serde_json::from_value(v["history"]["defs"].clone()).expect("defs");
+            execute(&defs, &mut report);
+        }
         println!("{}", serde_json::to_string_pretty(&report.to_json()).unwrap());
         std::process::exit(if report.violation_count > 0 { 1 } else { 0 });
     }
@@ -470,10 +565,20 @@ fn main() {
         "tsan" => 50,
         _ => args.size(2_000, 200_000),
     };
+    let small = args.tier == "miri";
+    let n_builder = match args.tier.as_str() {
+        "miri" => 1,
+        "tsan" => 16,
+        _ => args.size(400, 20_000),
+    };
     let mut report = run_workers(&args, "C04", |w, n, rng, report| {
         for _ in 0..Args::share(n_cases, w, n) {
             let defs = gen_defs(rng);
             execute(&defs, report);
+        }
+        for _ in 0..Args::share(n_builder, w, n) {
+            let case = builder_stage::gen_builder_case(rng, small);
+            execute_builder(&case, report);
         }
     });
     if args.tier != "miri" {
@@ -484,6 +589,10 @@ fn main() {
             "instrument_name_shared_across_exchanges",
             "asset_name_shared_across_exchanges",
             "execution_manager_round_trip",
+            "duplicate_definition_in_input",
+            "builder:request_reached_own_client",
+            "builder:linked_exchange_after_an_unlinked_one",
+            "builder:exchange_without_link_routes_nowhere",
         ] {
             report.require(c);
         }
